@@ -86,6 +86,14 @@ func hostileDatagram(r *rand.Rand, captured [][]byte, cidLen int, uOnly bool) (d
 
 		return true
 	}
+	// in mode U nothing the adversary sends may contain a record that still authenticates: a
+	// datagram of several records with one of them damaged would deliver the others early
+	// (reordering by an on-path party, which is C02's fault model, not "unauthenticatable input")
+	single := func(d []byte) bool {
+		recs, err := ParseDatagram(d, cidLen)
+
+		return err == nil && len(recs) == 1
+	}
 	for tries := 0; tries < 50; tries++ {
 		switch m := r.IntN(12); m {
 		case 0: // pure noise that is not a record from the first byte
@@ -106,7 +114,7 @@ func hostileDatagram(r *rand.Rand, captured [][]byte, cidLen int, uOnly bool) (d
 			return d, "short-header"
 		case 2: // protected record with flipped bits
 			d := pick()
-			if !protectedOnly(d) {
+			if !protectedOnly(d) || (uOnly && !single(d)) {
 				continue
 			}
 			for k := 0; k < 1+r.IntN(4); k++ {
@@ -117,10 +125,10 @@ func hostileDatagram(r *rand.Rand, captured [][]byte, cidLen int, uOnly bool) (d
 			return d, "protected-bitflip"
 		case 3: // protected record truncated / extended
 			d := pick()
-			if !protectedOnly(d) {
+			if !protectedOnly(d) || (uOnly && !single(d)) {
 				continue
 			}
-			if r.IntN(2) == 0 {
+			if r.IntN(2) == 0 || uOnly {
 				d = d[:r.IntN(len(d))]
 			} else {
 				d = append(d, randBytes(1+r.IntN(40))...)
@@ -398,10 +406,11 @@ func c08Run(rc *RunCtx, params any) {
 
 func init() {
 	Register(&Scenario{
-		ID:        "C08",
-		Counts:    c08Counts,
-		Gen:       c08Gen,
-		NewParams: func() any { return &C08Params{} },
-		Run:       c08Run,
+		ID:              "C08",
+		BudgetIsVerdict: true,
+		Counts:          c08Counts,
+		Gen:             c08Gen,
+		NewParams:       func() any { return &C08Params{} },
+		Run:             c08Run,
 	})
 }
